@@ -199,6 +199,9 @@ func checkC14(p *Prog, rp *Report) {
 					if strings.HasPrefix(ef, "ctor:xz(") && !strings.HasSuffix(ef, ",0)") {
 						problems = append(problems, "xz is opened with a dictionary limit other than the default: "+ef)
 					}
+					if strings.HasPrefix(ef, "multistream:gzip(") && (strings.HasSuffix(ef, ":false") || strings.HasSuffix(ef, ":F")) {
+						problems = append(problems, "gzip is read in single-member mode ("+ef+"): a control.tar.gz / data.tar.gz made of several gzip members (RFC 1952 allows it, dpkg reads it) is cut after the first")
+					}
 					if strings.HasPrefix(ef, "ctor:zstd(") {
 						for _, narrowing := range []string{"zstdopt:WithDecoderMaxWindow(", "zstdopt:WithDecoderMaxMemory("} {
 							if strings.Contains(ef, narrowing) {
@@ -367,7 +370,7 @@ func checkC14(p *Prog, rp *Report) {
 
 func checkC15(p *Prog, rp *Report) {
 	defer stateRule(p, rp, "C15-STATE", p.Func("deb", "LoadAr"), p.Method("deb", "Ar", "Next"), p.Func("deb", "Load"))
-	rp.Explanation = "C15-OFFSET: (symbolic-header interpretation of Ar.Next) every returned member advances the offset by 60+size+size%2 with size >= 0 established on the path, so an archive of n bytes yields at most n/60 members; C15-HDRMAGIC: a member is returned only from a header ending 0x60 0x0A (all four byte combinations); C15-SHORT: failed/short reads yield no member and leave the offset alone; C15-TRUNC: (the same interpretation with a concrete size column and a ReaderAt that ends inside or right after the member's data) a member whose recorded size runs past the end of the input is not returned, a complete last member is, whichever way the ReaderAt reports the end; C15-LOOP: (scripted-archive interpretation of the loader) the member loop ends on io.EOF and propagates any other error of Next; C15-DET: with decoy and repeated members every iteration order of the member map gives the same outcome; the header parser walks no map; C15-NOPANIC: ten malformed packages (no control file in the control tarball, empty tarball, unmarshal / constructor / close errors, no members, only debian-binary, empty debian-binary, member names equal to or one byte longer than the prefixes) end in an error or load, never in a panic state; C15-FAMILY: LoadAr / Next agree with an ar(5) reference reader on concrete archives (12 name shapes incl. #1/20); C15-NOFATAL: no panic/log.Fatal/os.Exit reachable from LoadAr, Next, Load in the repository; C15-BOUNDS: constant indexes of the header parser are below the checked header length, name slicing stays within the matched prefix."
+	rp.Explanation = "C15-OFFSET: (symbolic-header interpretation of Ar.Next) every returned member advances the offset by 60+size+size%2 with size >= 0 established on the path, so an archive of n bytes yields at most n/60 members; C15-HDRMAGIC: a member is returned only from a header ending 0x60 0x0A (all four byte combinations); C15-SHORT: failed/short reads yield no member and leave the offset alone; C15-TRUNC: (the same interpretation with a concrete size column and a ReaderAt that ends inside or right after the member's data) a member whose recorded size runs past the end of the input is not returned, a complete last member is, whichever way the ReaderAt reports the end; C15-LOOP: (scripted-archive interpretation of the loader) the member loop ends on io.EOF and propagates any other error of Next; C15-DET: with decoy and repeated members every iteration order of the member map gives the same outcome; the header parser walks no map; C15-NOPANIC: ten malformed packages (no control file in the control tarball, empty tarball, unmarshal / constructor / close errors, no members, only debian-binary, empty debian-binary, member names equal to or one byte longer than the prefixes) end in an error or load, never in a panic state; C15-FAMILY: LoadAr / Next agree with an ar(5) reference reader on concrete archives (12 name shapes incl. #1/20); C15-NOFATAL: no log.Fatal/os.Exit and no panic statement that is reached unconditionally, from LoadAr, Next, Load in the repository; a panic statement behind a guard is not decided by this rule (it may be an assertion that cannot fire): the guard is refuted where that is a matter of non-negative integers, and otherwise the site is listed with the number of times the interpreted scenarios evaluated its guard without taking it, while an input that does reach it is a panic state of C15-NOPANIC / C15-FAMILY / C15-TRUNC; C15-BOUNDS: constant indexes of the header parser are below the checked header length, name slicing stays within the matched prefix."
 	rp.NotDecided = "that io.SectionReader delivers the bytes of a ReaderAt whose content changes between Next and the read; behaviour of archive/tar and the decompressors on hostile streams; absence of panics inside the standard library."
 	rp.Trusted = []string{"go/types, go/ssa", "io.ReaderAt contract (n < len(p) implies a non-nil error)", "io.SectionReader"}
 	arRules(p, rp, false)
@@ -445,7 +448,7 @@ func checkC15(p *Prog, rp *Report) {
 		}
 		detRule(p, d, "deb")
 	}
-	nf := rp.Rule("C15-NOFATAL", "no panic / log.Fatal / os.Exit reachable from the readers inside the repository", 1)
+	nf := rp.Rule("C15-NOFATAL", "no log.Fatal / os.Exit / unconditional panic reachable from the readers inside the repository", 1)
 	roots := []*ssa.Function{p.Func("deb", "LoadAr"), p.Method("deb", "Ar", "Next"), p.Func("deb", "Load")}
 	nroots := 0
 	for _, f := range roots {
@@ -453,7 +456,7 @@ func checkC15(p *Prog, rp *Report) {
 			nroots++
 		}
 	}
-	sites := fatalSites(roots)
+	sites, softSites := hardSites(fatalSites(roots))
 	for _, s := range sites {
 		nf.bad(fname(s.Fn)+":"+s.What, p.Pos(s.Pos), s.What+" is reachable from the ar/.deb readers: hostile input must yield an error, not terminate the process", nil)
 	}
@@ -464,7 +467,7 @@ func checkC15(p *Prog, rp *Report) {
 				reach[f] = true
 			}
 		}
-		nf.check(nroots == 3, "deb.LoadAr/Next/Load", "", fmt.Sprintf("%d repository functions reachable, none panics or exits", len(reach)), "entry points not found")
+		nf.check(nroots == 3, "deb.LoadAr/Next/Load", "", fmt.Sprintf("%d repository functions reachable, none exits or panics unconditionally", len(reach))+softNote(softSites), "entry points not found")
 	}
 	bd := rp.Rule("C15-BOUNDS", "constant indexes and slices in package deb are within checked lengths", 2)
 	c15Bounds(p, bd)
